@@ -365,7 +365,7 @@ def run(ctx):
         return
     rng = ctx.rng
     npk = 10 if ctx.quick else 96
-    per = 40 if ctx.quick else 70
+    per = 40 if ctx.quick else 40   # more than ~45 match functions per run package overflow the 2^12-word data section addressing of test packages
     base = os.path.join(ctx.work, "pkgs")
     pkgs = []           # (name, decls, cases, src)
     d0, c0 = corpus_cases()
